@@ -335,10 +335,7 @@ class Scratch(object):
         """remove what gffutils' from_string leaves behind (known finding F13) and our own files"""
         for name in set(os.listdir(self.root)) - self.before:
             p = os.path.join(self.root, name)
-            if os.path.isdir(p):
-                if p == self.dir:
-                    shutil.rmtree(p, ignore_errors=True)
-            else:
+            if not os.path.isdir(p):
                 try:
                     os.unlink(p)
                 except OSError:
@@ -410,7 +407,8 @@ def run_case(case, scratch, reimport=True):
             d["stage"] = "reopen"
             fails.append({"case": d, "expected": {"features": snap, "relations": rel1}, "observed": {"features": snap2, "relations": rel2}})
         # ---- printed features imported again
-        if reimport and not case.infer and not fails:
+        lossy = case.sort_values and any(vs != sorted(vs) for r in case.recs for _, vs in r.items)
+        if reimport and not case.infer and not fails and not lossy:
             text3 = "\n".join(s["str"] for s in snap) + "\n"
             try:
                 if case.form == "string":
@@ -496,7 +494,7 @@ def cols_for(i, fmt, ftype=None):
 
 
 def extra_for(i):
-    return ([], [], ["x1"], [], ["", "a b"], [""])[i % 6]
+    return ([], ["x1"], [""], [], ["", "a b"], [])[i % 6]
 
 
 def shape_items(shape, u, fmt):
@@ -511,7 +509,7 @@ def shape_items(shape, u, fmt):
     if shape == "F":
         return [(k1, [u]), ("flag", [])]
     if shape == "M":
-        return [(k1, [u]), (k2, ["b", "a", "b c"]), (k3, ["p", special])]
+        return [(k1, [u]), (k2, ["b", "a", "b c", "b"]), (k3, ["p", special])]
     if shape == "E":
         return []
     raise ValueError(shape)
@@ -521,18 +519,19 @@ def dialect_cases(thorough):
     """all 48 dialects x all sequences of line shapes"""
     shapes = "ABCFME"
     L = 3 if thorough else 2
-    idx = 0
+    idx = si = 0
     for n in range(1, L + 1):
         for seq in itertools.product(shapes, repeat=n):
             for cl in range(0, n):
+                si += 1
                 for di, D in enumerate(ALL_DIALECTS):
                     idx += 1
-                    if not thorough and n == 2 and (idx + di) % 2:
+                    if not thorough and n == 2 and (si + di) % 3:
                         continue
                     fmt = fmt_of(D)
                     recs = [Rec(cols_for(i, fmt), shape_items(s, "f%dx" % i, fmt), extra_for(i + n)) for i, s in enumerate(seq)]
                     yield Case(D, recs, checklines=cl, db=("file" if idx % (4 if thorough else 8) == 0 else "memory"),
-                               tag="dialects:%s" % "".join(seq))
+                               eol=("\r\n" if idx % 5 == 0 else "\n"), final_eol=(idx % 7 != 0), tag="dialects:%s" % "".join(seq))
 
 
 def subsets_in_order(keys, nonempty=True):
@@ -544,8 +543,8 @@ def subsets_in_order(keys, nonempty=True):
 
 def late_key_cases(thorough):
     """window lines carry ID;Name only; later lines add keys never seen in the window, after the seen
-    ones and in one global order (Note < Parent < Alias): every line must still come back unchanged"""
-    late = ("Note", "Parent", "Alias") if thorough else ("Note", "Parent")
+    ones and in one global order (Parent < Note < Alias): every line must still come back unchanged"""
+    late = ("Parent", "Note", "Alias") if thorough else ("Parent", "Note")        # deliberately not alphabetical
     subs = subsets_in_order(late)
     idx = 0
     for cl in ((0, 1, 2, 3, 10) if thorough else (0, 1, 10)):
@@ -743,9 +742,9 @@ def unit_dialects(U):
         "create_db(file) then all_features(): one feature per line in input order, columns / extra / attributes equal the generator's record, "
         "str(feature) == input line (keep_order=True), same after reopen, re-import of the printed lines gives an equal database",
         "exhaustive: all 48 dialects (3 separators x trailing x 4 key/value styles x repeated keys) x every sequence of <= %d lines over 6 line shapes "
-        "(multi-valued, single attribute, reserved characters, valueless flag, three keys with unsorted values, empty column 9), '.' coordinates and extra columns by position, "
+        "(multi-valued, single attribute, reserved characters, valueless flag, three keys with unsorted values, empty column 9), '.' coordinates and extra columns (also empty ones) by position, LF and CRLF, with and without final newline, "
         "checklines 0..n-1, :memory: and every %s case on a file database with reopen%s; %d files outside the observability precondition left to C01.bounded.late_dialect_facts"
-        % (3 if U.thorough else 2, "4th" if U.thorough else "8th", "" if U.thorough else " (2-line files: every second dialect, alternating)", r["skipped"]),
+        % (3 if U.thorough else 2, "4th" if U.thorough else "8th", "" if U.thorough else " (2-line files: every third dialect, rotating)", r["skipped"]),
         r["cases"], r["fails"], exhaustive=True, distinct=r["distinct"], sample=r["sample"])
 
 
@@ -781,7 +780,7 @@ def unit_window(U):
 
 def unit_random(U):
     scratch = Scratch()
-    count = 12000 if U.thorough else 900
+    count = 12000 if U.thorough else 650
     try:
         r = run_all(random_cases(U.rng, count, U.thorough), scratch, True, reimport_every=1)
     finally:
